@@ -187,12 +187,32 @@ inductive LoopRes where
   | raised (site : Site) (exc : String)
 deriving DecidableEq, Repr
 
-/-- the loop `for base in self.__orig_bases__` (first generic origin wins: `break`) -/
+/-- `issubclass(c, a)`: `a` is `c` or is reached from `c` through `__bases__` (for a class the interpreter created the MRO consists
+    of exactly these classes; the linearisation itself is compared with `__mro__` on every case) -/
+def derives (t : Table) (a : Nat) : Nat → Nat → Bool
+  | 0, c => c == a
+  | d + 1, c => c == a || (parents t c).any (derives t a d)
+
+/-- id of a library class in a class table (`libTable` below) -/
+def libClassId (n : String) : Nat :=
+  if n = "Generic" then 0 else if n = "GenericMixin" then 1 else if n = "ABC" then 2 else 3
+
+/-- the loop passes over a subscripted base with origin `o`:
+    `if not (isinstance(base.__origin__, type) and issubclass(base.__origin__, <Class>)): continue` (every origin here is a class) -/
+def originPassedOver (t : Table) (d o : Nat) : Bool :=
+  match loopOriginMustDeriveFrom with
+  | none => false
+  | some n => !(derives t (libClassId n) d o)
+
+/-- the loop `for base in self.__orig_bases__` (first generic origin that is not passed over wins: `break`) -/
 def loopBases (t : Table) (d : Nat) : List BaseRef → LoopRes
   | [] => .notFound
   | .plain _ :: rest => loopBases t d rest                            -- no `__origin__`: continue
-  | .generic _ :: _ => .raised .originBases "AttributeError"          -- typing.Generic has no `__orig_bases__`
+  | .generic _ :: rest =>
+    if originPassedOver t d genericId then loopBases t d rest         -- `Generic` is no subclass of the required class: continue
+    else .raised .originBases "AttributeError"                        -- typing.Generic has no `__orig_bases__`
   | .param o args :: rest =>
+    if originPassedOver t d o then loopBases t d rest else
     match getGenericBase (lookupOrigBases t d o) with
     | .raised s e => .raised s e
     | .ok (some gb) => .found gb args
@@ -221,6 +241,13 @@ def getTypes (t : Table) (d c : Nat) (orig : Option (List TArg)) : Res (List (TA
       | .found gb types => .ok (mkDict gb types)
       | .notFound => .raised .noneArgs "AttributeError"            -- `generic_base.__args__` on None
       | .raised s e => .raised s e
+
+/-- a history of queries `inst.type_vars` on several instances (class, arguments of `__orig_class__`), one after the other: the
+    code keeps nothing between two queries (no decorator on the helpers, no module state — `getTypesDecorators`,
+    `getGenericBaseDecorators` in the generated facts) and never compares or hashes an instance, so every answer is the answer
+    to that query alone -/
+def runQueries (t : Table) (d : Nat) (qs : List (Nat × Option (List TArg))) : List (Res (List (TArg × TArg))) :=
+  qs.map fun q => getTypes t d q.1 q.2
 
 /-- the property `type_var` -/
 def typeVar (r : Res (List (TArg × TArg))) : Res TArg :=
